@@ -169,6 +169,160 @@ for i in range(N):
     cur["panics"] = False
     cur["simple"] = True
     roll = rnd.random()
+    if i % 7 == 3 and i > 20:
+        # an enum in one of the other representations (bare union / tag + content / internally tagged)
+        repr_kind = ["bare", "untagged", "tagcontent", "tagcontent", "internal"][(i // 7) % 5]
+        cattrs = []
+        ns = rnd.choice(NAMESPACES)
+        if ns:
+            cattrs.append(f"#[avro(namespace = {q(ns)})]")
+        erule = ("", "none")
+        if rnd.random() < 0.3 and repr_kind != "internal":
+            erule = rnd.choice([r for r in RULES if "kebab" not in r[1]])
+            cattrs.append(f"#[serde(rename_all = {q(erule[0])})]")
+        edoc = None
+        if rnd.random() < 0.2 and repr_kind != "bare" and repr_kind != "untagged":
+            edoc = f"doc of {ident}"
+            cattrs.append(f"#[avro(doc = {q(edoc)})]")
+        name = ".".join(x for x in [ns, ident] if x)
+        structs = [t for t in types if t.get("kind") == "struct" and not t["panics"] and t.get("simple")]
+        vr, vs, vg = [], [], []
+        aux_rust, aux_desc = "", None
+
+        def scalar_payload(kind):
+            r = {"int": "i32", "long": "i64", "bool": "bool", "float": "f32", "double": "f64", "string": "String"}[kind]
+            return r, {"String": "string"}.get(r, r), scalar_gen(r)
+
+        if repr_kind in ("bare", "untagged"):
+            cattrs.append('#[avro(repr = "bare_union")]')
+            if repr_kind == "untagged":
+                cattrs.append("#[serde(untagged)]")
+            sexp_repr = "bare"
+            kinds = ["unit", "int", "bool", "double", "string"] if repr_kind == "untagged" else ["unit", "int", "long", "bool", "float", "double", "string", "array", "map", "struct", "tuple", "fields"]
+            if repr_kind == "untagged":
+                chosen = [k for k in kinds if rnd.random() < 0.7] or ["int"]
+                if rnd.random() < 0.5:
+                    chosen.append("tuple")
+            else:
+                chosen = [k for k in kinds if rnd.random() < 0.45] or ["long"]
+                rnd.shuffle(chosen)
+            # (derive(Default) needs a unit variant: it comes first)
+            chosen = ["unit"] + [k for k in chosen if k != "unit"]
+            for k, kind in enumerate(chosen):
+                vid = VARIANT_IDENTS[k % len(VARIANT_IDENTS)] + (str(k) if k >= len(VARIANT_IDENTS) else "")
+                attrs = ["#[default]"] if k == 0 else []
+                if kind == "unit":
+                    vr.append("".join(f"    {a}\n" for a in attrs) + f"    {vid},"); shape = "unit"; g = f"{ident}::{vid}"
+                elif kind in ("int", "long", "bool", "float", "double", "string"):
+                    r, x, gg = scalar_payload(kind)
+                    vr.append("".join(f"    {a}\n" for a in attrs) + f"    {vid}({r}),"); shape = f"(tuple {x})"; g = f"{ident}::{vid}({gg})"
+                elif kind == "array":
+                    vr.append("".join(f"    {a}\n" for a in attrs) + f"    {vid}(Vec<i64>),"); shape = "(tuple (vec i64))"
+                    g = f"{ident}::{vid}((0..rng.below(3)).map(|_| crate::genr::gen_long(rng)).collect())"
+                elif kind == "map":
+                    vr.append("".join(f"    {a}\n" for a in attrs) + f"    {vid}(HashMap<String, bool>),"); shape = "(tuple (map bool))"
+                    g = f"{ident}::{vid}((0..rng.below(3)).map(|i| (format!(\"k{{i}}\"), rng.chance(1, 2))).collect())"
+                elif kind == "struct" and structs:
+                    t = rnd.choice(structs); used_here.append(t["ident"])
+                    vr.append("".join(f"    {a}\n" for a in attrs) + f"    {vid}({t['ident']}),"); shape = f"(tuple (named {hx(t['ident'])}))"
+                    g = f"{ident}::{vid}({t['ident']}::make(rng, depth + 1))"
+                elif kind == "tuple":
+                    vr.append("".join(f"    {a}\n" for a in attrs) + f"    {vid}(bool, f64),"); shape = "(tuple bool f64)"
+                    g = f"{ident}::{vid}(rng.chance(1, 2), *rng.pick(&[0.0f64, 2.5, -1.0]))"
+                else:
+                    vr.append("".join(f"    {a}\n" for a in attrs) + f"    {vid} {{ first_part: i64, second: String, third: bool }},")
+                    shape = f"(struct (field {hx('first_part')} i64 - 0 - () - 0) (field {hx('second')} string - 0 - () - 0) (field {hx('third')} bool - 0 - () - 0))"
+                    g = f"{ident}::{vid} {{ first_part: crate::genr::gen_long(rng), second: crate::genr::gen_string(rng), third: rng.chance(1, 2) }}"
+                vs.append(f"(var {hx(vid)} - 0 {int(k == 0)} none {shape})")
+                vg.append(g)
+        elif repr_kind == "tagcontent":
+            tag, content = rnd.choice([("kind", "value"), ("t", "c"), ("type", "payload")])
+            tag = tag + str(i)
+            cattrs.append(f"#[serde(tag = {q(tag)}, content = {q(content)})]")
+            sexp_repr = f"(tagcontent {hx(tag)} {hx(content)})"
+            kinds = ["unit", "int", "int", "long", "bool", "double", "string", "string", "array", "map", "struct", "struct", "tuple", "fields", "unit"]
+            chosen = [k for k in kinds if rnd.random() < 0.4] or ["int"]
+            rnd.shuffle(chosen)
+            chosen = ["unit"] + chosen
+            seen_coll = set()
+            for k, kind in enumerate(chosen):
+                if kind in ("array", "map"):
+                    if kind in seen_coll:
+                        kind = "bool"
+                    seen_coll.add(kind)
+                vid = VARIANT_IDENTS[k % len(VARIANT_IDENTS)] + (str(k) if k >= len(VARIANT_IDENTS) else "")
+                attrs = ["#[default]"] if k == 0 else []
+                vskip = k > 0 and rnd.random() < 0.06
+                if vskip:
+                    attrs.append("#[serde(skip)]")
+                if kind == "unit":
+                    vr.append("".join(f"    {a}\n" for a in attrs) + f"    {vid},"); shape = "unit"; g = f"{ident}::{vid}"
+                elif kind in ("int", "long", "bool", "float", "double", "string"):
+                    r, x, gg = scalar_payload(kind)
+                    vr.append("".join(f"    {a}\n" for a in attrs) + f"    {vid}({r}),"); shape = f"(tuple {x})"; g = f"{ident}::{vid}({gg})"
+                elif kind == "array":
+                    vr.append("".join(f"    {a}\n" for a in attrs) + f"    {vid}(Vec<i64>),"); shape = "(tuple (vec i64))"
+                    g = f"{ident}::{vid}((0..rng.below(3)).map(|_| crate::genr::gen_long(rng)).collect())"
+                elif kind == "map":
+                    vr.append("".join(f"    {a}\n" for a in attrs) + f"    {vid}(HashMap<String, bool>),"); shape = "(tuple (map bool))"
+                    g = f"{ident}::{vid}((0..rng.below(3)).map(|i| (format!(\"k{{i}}\"), rng.chance(1, 2))).collect())"
+                elif kind == "struct" and structs:
+                    t = rnd.choice(structs); used_here.append(t["ident"])
+                    vr.append("".join(f"    {a}\n" for a in attrs) + f"    {vid}({t['ident']}),"); shape = f"(tuple (named {hx(t['ident'])}))"
+                    g = f"{ident}::{vid}({t['ident']}::make(rng, depth + 1))"
+                elif kind == "tuple":
+                    vr.append("".join(f"    {a}\n" for a in attrs) + f"    {vid}(i32, String),"); shape = "(tuple i32 string)"
+                    g = f"{ident}::{vid}(crate::genr::gen_int(rng), crate::genr::gen_string(rng))"
+                else:
+                    vr.append("".join(f"    {a}\n" for a in attrs) + f"    {vid} {{ first_part: i64, second: bool }},")
+                    shape = f"(struct (field {hx('first_part')} i64 - 0 - () - 0) (field {hx('second')} bool - 0 - () - 0))"
+                    g = f"{ident}::{vid} {{ first_part: crate::genr::gen_long(rng), second: rng.chance(1, 2) }}"
+                vs.append(f"(var {hx(vid)} - {int(vskip)} {int(k == 0)} none {shape})")
+                if not vskip:
+                    vg.append(g)
+        else:
+            tag = rnd.choice(["type", "kind"]) + str(i)
+            cattrs.append(f"#[serde(tag = {q(tag)})]")
+            sexp_repr = f"(internal {hx(tag)})"
+            # an auxiliary struct whose fields all have defaults, for a newtype variant
+            aux = f"{ident}Aux"
+            aux_rust = ("#[derive(Serialize, Deserialize, AvroSchema, Debug, Clone, PartialEq, Default)]\n" +
+                        f"pub struct {aux} {{\n    pub aux_x: Option<i32>,\n    #[avro(default = \"7\")]\n    pub aux_y: i64,\n}}\n" +
+                        f"impl Make for {aux} {{\n    fn make(rng: &mut Rng, depth: usize) -> Self {{\n        let _ = depth;\n        {aux} {{ aux_x: if rng.chance(1, 2) {{ Some(crate::genr::gen_int(rng)) }} else {{ None }}, aux_y: crate::genr::gen_long(rng) }}\n    }}\n}}\n")
+            aux_desc = (aux, f"(struct {hx(aux)} {hx(aux)} - () none (fields (field {hx('aux_x')} (option i32) - 0 - () - 0) (field {hx('aux_y')} i64 - 0 (ji 7) () - 0)))")
+            shapes = ["unit", "fields1", "newtype", "fields2", "unit"]
+            chosen = [k for k in shapes if rnd.random() < 0.6] or ["fields1"]
+            seen = set()
+            chosen = ["unit"] + [k for k in chosen if k == "unit" or not (k in seen or seen.add(k))]
+            for k, kind in enumerate(chosen):
+                vid = VARIANT_IDENTS[k % len(VARIANT_IDENTS)]
+                attrs = ["#[default]"] if k == 0 else []
+                if kind == "unit":
+                    vr.append("".join(f"    {a}\n" for a in attrs) + f"    {vid},"); shape = "unit"; g = f"{ident}::{vid}"
+                elif kind == "newtype":
+                    vr.append("".join(f"    {a}\n" for a in attrs) + f"    {vid}({aux}),"); shape = f"(tuple (named {hx(aux)}))"
+                    g = f"{ident}::{vid}({aux}::make(rng, depth + 1))"
+                elif kind == "fields1":
+                    vr.append("".join(f"    {a}\n" for a in attrs) + f"    {vid} {{\n        #[avro(default = \"0\")]\n        dx: i32,\n        note: Option<String>,\n    }},")
+                    shape = f"(struct (field {hx('dx')} i32 - 0 (ji 0) () - 0) (field {hx('note')} (option string) - 0 - () - 0))"
+                    g = f"{ident}::{vid} {{ dx: crate::genr::gen_int(rng), note: if rng.chance(1, 2) {{ Some(crate::genr::gen_string(rng)) }} else {{ None }} }}"
+                else:
+                    vr.append("".join(f"    {a}\n" for a in attrs) + f"    {vid} {{\n        #[avro(default = \"true\")]\n        flag_two: bool,\n        amounts: Option<Vec<i64>>,\n    }},")
+                    shape = f"(struct (field {hx('flag_two')} bool - 0 jtrue () - 0) (field {hx('amounts')} (option (vec i64)) - 0 - () - 0))"
+                    g = f"{ident}::{vid} {{ flag_two: rng.chance(1, 2), amounts: if rng.chance(1, 2) {{ Some(vec![crate::genr::gen_long(rng)]) }} else {{ None }} }}"
+                vs.append(f"(var {hx(vid)} - 0 {int(k == 0)} none {shape})")
+                vg.append(g)
+        if aux_desc:
+            out.append(aux_rust)
+            descs.append(aux_desc[1])
+            types.append({"ident": aux_desc[0], "panics": False, "is_union": False, "kind": "struct", "simple": True, "idents": ["aux_x", "aux_y"]})
+        out.append("#[derive(Serialize, Deserialize, AvroSchema, Debug, Clone, PartialEq, Default)]\n" + "".join(c + "\n" for c in cattrs) +
+                   f"pub enum {ident} {{\n" + "\n".join(vr) + "\n}\n" +
+                   f"impl Make for {ident} {{\n    fn make(rng: &mut Rng, depth: usize) -> Self {{\n        let _ = depth;\n        match rng.below({len(vg)}) {{\n" +
+                   "".join(f"            {k} => {g},\n" for k, g in enumerate(vg[:-1])) + f"            _ => {vg[-1]},\n        }}\n    }}\n}}\n")
+        descs.append(f"(enumrepr {sexp_repr} {hx(ident)} {hx(name)} {hx(edoc) if edoc else '-'} () {erule[1]} none (variants {' '.join(vs)}))")
+        types.append({"ident": ident, "panics": False, "is_union": repr_kind in ("bare", "untagged"), "kind": "enumrepr"})
+        continue
     if i % 9 == 4:
         # #[serde(transparent)]: no other container attribute is allowed
         r, x, g, u = ty_expr(0)
